@@ -5,7 +5,7 @@
    Objects arrive in a sparse form (only members that hold something); [dense] aligns them with the
    class table, [sparse_ok] refuses a member name the table does not have. *)
 From Coq Require Import String Ascii List Bool Arith NArith.
-From Verif Require Import Base.Str Base.Run Base.Xml Base.ClassTable C12.Model C12.Spec C12.Xsd.
+From Verif Require Import Base.Str Base.Run Base.Xml Base.ClassTable C12.Model C12.Spec C12.Xsd C12.Build.
 From VerifGen Require Import ClassTables C12Vocab C12Schema.   (* C12Vocab: only so that make builds it for the case files *)
 Import ListNotations.
 Open Scope string_scope.
@@ -21,6 +21,9 @@ Section Corr.
 
   (* schema order as the library's table has it AND as the schema files have it *)
   Definition in_order (c : N) (t : tree) : bool := ordered_b T c t && xsd_ordered_b T X c t.
+
+  (* which children are unknown is said by the schema files, not by the library's table (C12/Xsd.v, round 5) *)
+  Definition kept (c : N) (t : tree) (o : obj) : bool := xsd_kept_b T X xsd_extra_allowed c t o.
 
   Fixpoint dense (s : sobj) : obj :=
     match s with
@@ -78,7 +81,14 @@ Section Corr.
   | RT (c : N) (o_in : sobj) (t1 : tree) (r1 : pres) (t2 : option tree) (same12 : bool) (r2 : pres) (same23 : bool)
   | DOC (c : N) (t : tree) (r : pres) (t2 : option tree) (r2 : pres) (same23 : bool)
   | IMPL (ok : bool)                  (* implementation-only check *)
-  | IMPLF (k : nat) (ok : bool).      (* implementation-only probe of listed finding class k *)
+  | IMPLF (k : nat) (ok : bool)       (* implementation-only probe of listed finding class k *)
+  (* round 5: an AttributeValueBase instance built through the PUBLIC API along recipe b (C12/Build.v): the
+     constructor with its three keywords, then set_text / .text = / set_type / extension_attributes[..] = ..;
+     what was built is o_in, the rest is what RT observes *)
+  | RTB (c : N) (b : recipe) (o_in : sobj) (t1 : tree) (r1 : pres) (t2 : option tree) (same12 : bool) (r2 : pres)
+        (same23 : bool)
+  | BRAISE (c : N) (b : recipe)       (* the recipe raised ValueError on the implementation *)
+  | BNONSTR (c : N) (b : recipe).     (* the text member of the built instance is not a str (to_string() raises) *)
 
   Definition follow (c : N) (r : pres) (t2 : option tree) (r2 : pres) : bool :=
     match r, t2 with
@@ -87,13 +97,27 @@ Section Corr.
     | _, _ => true
     end.
 
+  Definition agrees_rt (c : N) (o_in : sobj) (t1 : tree) (r1 : pres) (t2 : option tree) (r2 : pres) : bool :=
+    sparse_ok o_in && N.eqb (o_cls (dense o_in)) c
+    && tree_eqb (ser T (dense o_in)) t1 && agree_pres (mparse c t1) r1 && follow c r1 t2 r2.
+
+  (* the model of the building side gives the instance the implementation built *)
+  Definition agrees_build (c : N) (b : recipe) (o_in : sobj) : bool :=
+    recipe_ok b
+    && match av_build b with
+       | TOk xa tx => obj_eqb (av_obj c (r_ext b) xa tx) (dense o_in)
+       | TRaise | TNonStr => false
+       | TUnmodelled => true
+       end.
+
   Definition agrees (k : case) : bool :=
     match k with
-    | RT c o_in t1 r1 t2 _ r2 _ =>
-        sparse_ok o_in && N.eqb (o_cls (dense o_in)) c
-        && tree_eqb (ser T (dense o_in)) t1 && agree_pres (mparse c t1) r1 && follow c r1 t2 r2
+    | RT c o_in t1 r1 t2 _ r2 _ => agrees_rt c o_in t1 r1 t2 r2
     | DOC c t r t2 r2 _ => agree_pres (mparse c t) r && follow c r t2 r2
     | IMPL _ | IMPLF _ _ => true
+    | RTB c b o_in t1 r1 t2 _ r2 _ => agrees_build c b o_in && agrees_rt c o_in t1 r1 t2 r2
+    | BRAISE c b => recipe_ok b && match av_build b with TRaise | TUnmodelled => true | _ => false end
+    | BNONSTR c b => recipe_ok b && match av_build b with TNonStr | TUnmodelled => true | _ => false end
     end.
 
   Definition same_obj (r : pres) (o : obj) : bool :=
@@ -108,17 +132,34 @@ Section Corr.
     | _ => true
     end.
 
+  (* the property, verbatim, on what was observed: serialising and re-parsing yields the same object (children in
+     schema order), serialising that again is byte-identical, and once more *)
+  Definition roundtrip_b (c : N) (o : obj) (t1 : tree) (r1 : pres) (t2 : option tree) (same12 : bool) (r2 : pres)
+             (same23 : bool) : bool :=
+    same_obj r1 o && same12 && in_order c t1 && same_obj r2 o && same23
+    && match t2 with Some t2' => in_order c t2' | None => false end.
+
   Definition holds (k : case) : bool :=
     match k with
     | RT c o_in t1 r1 t2 same12 r2 same23 =>
         let o := dense o_in in
         (negb (canonical_b T o) || (same_obj r1 o && same12 && in_order c t1)) && stable_b c r1 t2 r2 same23
+        && match r1 with POk s => kept c t1 (dense s) | _ => true end
     | DOC c t r t2 r2 same23 =>
         match r with
-        | POk s => tag_is T c (t_tag t) && nd_b T c t (dense s) && stable_b c r t2 r2 same23
+        | POk s => tag_is T c (t_tag t) && nd_b T c t (dense s) && kept c t (dense s) && stable_b c r t2 r2 same23
         | _ => true
         end
     | IMPL ok | IMPLF _ ok => ok
+    (* an instance built through the public API IS an instance the property speaks about: no guard *)
+    | RTB c b o_in t1 r1 t2 same12 r2 same23 =>
+        negb (recipe_in_scope b)
+        || roundtrip_b c (dense o_in) t1 r1 t2 same12 r2 same23
+    | BRAISE _ _ => true
+    (* xs:anyType keeps an int / bool / float as it is (the library's own test-suite asserts "the value is
+       unchanged"); the property quantifies over text that is a string of XML characters: outside its domain.
+       The case only checks that the model knows when this happens (agrees). *)
+    | BNONSTR _ _ => true
     end.
 
   (* ---- finding classes (consulted only when [holds] is false) *)
@@ -153,6 +194,19 @@ Section Corr.
         else if empty_type_b t then 3 else 0
     | IMPL _ => 0
     | IMPLF k _ => k
+    (* judged on what the MODEL of the unchanged building side builds (not on what was observed): a constructor
+       that starts to build an instance of class 5/6/7 is not excused by that class *)
+    | RTB c b o_in _ _ _ _ _ _ =>
+        match av_build b with
+        | TOk xa tx =>
+            if negb (no_cr_b (av_obj c (r_ext b) xa tx)) then 2 else av_known_class (r_ext b) xa tx
+        | TUnmodelled =>      (* a float / date conversion the model does not restate: judged on what was observed *)
+            let o := dense o_in in
+            if negb (no_cr_b o) then 2 else av_known_class (o_ext o) (o_xattrs o) (o_text o)
+        | _ => 0
+        end
+    | BRAISE _ _ => 0
+    | BNONSTR _ _ => 0
     end.
 
   Definition explain (k : case) :=
@@ -163,10 +217,14 @@ Section Corr.
          (* order by the library's table / by the schema files: first and second serialisation *)
          (ordered_b T c t1, xsd_ordered_b T X c t1, match t2 with Some t => in_order c t | None => true end))
     | DOC c t r t2 r2 _ =>
-        (None, mparse c t, match r with POk s => nd_b T c t (dense s) | _ => true end,
+        (None, mparse c t, match r with POk s => nd_b T c t (dense s) && kept c t (dense s) | _ => true end,
          match r with POk s => Some (dense s) | _ => None end,
          (true, true, match t2 with Some t => in_order c t | None => true end))
-    | IMPL _ | IMPLF _ _ => (None, MNone, true, None, (true, true, true))
+    | IMPL _ | IMPLF _ _ | BRAISE _ _ | BNONSTR _ _ => (None, MNone, true, None, (true, true, true))
+    | RTB c b o_in t1 r1 t2 same12 r2 same23 =>
+        (Some (ser T (dense o_in)), mparse c t1, agrees_build c b o_in && recipe_in_scope b,
+         match av_build b with TOk xa tx => Some (av_obj c (r_ext b) xa tx) | _ => None end,
+         (same_obj r1 (dense o_in), same12, roundtrip_b c (dense o_in) t1 r1 t2 same12 r2 same23))
     end.
 End Corr.
 
